@@ -10,6 +10,7 @@ import Swiftness.Generated.Layout.recursive_with_poseidon
 import Swiftness.Generated.Layout.small
 import Swiftness.Generated.Layout.starknet
 import Swiftness.Generated.Layout.starknet_with_keccak
+import Swiftness.Generated.Layout.dynamic_asserts
 open Swiftness Swiftness.AstText Swiftness.Gen.Layout
 
 def main (args : List String) : IO UInt32 := do
@@ -25,4 +26,5 @@ def main (args : List String) : IO UInt32 := do
   for (n, c, cr, o, or_) in all do
     IO.FS.writeFile s!"{dir}/{n}.composition.txt" (progText c cr)
     IO.FS.writeFile s!"{dir}/{n}.oods.txt" (progText o or_)
+  IO.FS.writeFile s!"{dir}/dynamic.asserts.txt" (Swiftness.DynAsserts.fileText dynamic.usizeMax dynamic.asserts)
   return 0
